@@ -86,29 +86,37 @@ bool RSEquationProcessor::PrecheckFor(const EntityUID key, const EntityUID value
   }
 }
 
-rslang::ExpressionType RSEquationProcessor::Evaluate(const EntityUID uid) const {
+std::optional<rslang::ExpressionType> RSEquationProcessor::Evaluate(const EntityUID uid) const {
   const auto* type = schema.GetParse(uid).TypePtr();
   if (!std::holds_alternative<rslang::Typification>(*type)) {
     return *type;
   } else {
     auto typificationText = std::get<rslang::Typification>(*type).ToString();
+    auto rounds = std::size(nameSubstitutes) + 1;
     while (rslang::SubstituteGlobals(typificationText, nameSubstitutes) > 0) {
+      if (rounds-- == 0) {
+        return std::nullopt; // cyclic identification of base sets
+      }
       const auto fixedType = schema.RSLang().Evaluate(typificationText);
-      assert(fixedType.has_value());
+      if (!fixedType.has_value() || !std::holds_alternative<rslang::Typification>(fixedType.value())
+          || !std::get<rslang::Typification>(fixedType.value()).IsCollection()) {
+        return std::nullopt; // a base set was replaced by something that is not a set
+      }
       // NOLINTNEXTLINE(bugprone-unchecked-optional-access)
       typificationText = std::get<rslang::Typification>(fixedType.value()).B().Base().ToString();
     }
-    // NOLINTNEXTLINE(bugprone-unchecked-optional-access)
-    return std::get<rslang::Typification>(schema.RSLang().Evaluate(typificationText).value());
+    return schema.RSLang().Evaluate(typificationText);
   }
 }
 
 bool RSEquationProcessor::CheckNonBasicEquations() const {
   for (const auto& [key, value] : *equations) {
     if (!IsBaseSet(schema.GetRS(key).type) && 
-        !IsBaseSet(schema.GetRS(value).type) &&
-        Evaluate(key) != Evaluate(value)) {
-      return false;
+        !IsBaseSet(schema.GetRS(value).type)) {
+      const auto keyType = Evaluate(key);
+      if (!keyType.has_value() || keyType != Evaluate(value)) {
+        return false;
+      }
     }
   }
   return true;
